@@ -346,16 +346,36 @@ func vh_C01_layoutsigs(a []int) {
 			md.(*Metablock).Signed = Layout{Type: "layout", Readme: "R1"}
 		}
 	}
+	// a[3] == 2: single-point alterations of the signature list - the signature of key 0 is replaced by a
+	// degenerate value (empty, not hexadecimal / not base64, another key's signature, a truncated one)
+	badSig := false
+	if a[3] == 2 && nsigned >= 1 {
+		badSig = true
+		if e, isEnv := md.(*Envelope); isEnv {
+			other := "AAAA"
+			if len(e.envelope.Signatures) > 1 {
+				other = e.envelope.Signatures[1].Sig
+			}
+			e.envelope.Signatures[0].Sig = vConcStr(vPick("bad-sig", "", "AAAA", "!!", other, e.envelope.Signatures[0].Sig[:8]))
+		} else {
+			mb := md.(*Metablock)
+			other := "00ff"
+			if len(mb.Signatures) > 1 {
+				other = mb.Signatures[1].Sig
+			}
+			mb.Signatures[0].Sig = vConcStr(vPick("bad-sig", "", "00ff", "zz", other, mb.Signatures[0].Sig[:8]))
+		}
+	}
 	keys := map[string]Key{}
 	for i := 0; i < nsupplied; i++ {
 		keys[vhEdIDs[i]] = vhEdKey(i, false)
 	}
 	err := VerifyLayoutSignatures(md, keys)
 	vObserve("layoutsigs", err == nil)
-	want := nsupplied >= 1 && nsupplied <= nsigned && !alter
+	want := nsupplied >= 1 && nsupplied <= nsigned && !alter && !badSig
 	vAssert("C01.layout-accepted-iff-every-supplied-key-signed-the-current-content", (err == nil) == want)
 	// history: after this verification, an impostor key (the id of key 0 with other material) is still refused
-	if nsupplied >= 1 {
+	if nsupplied >= 1 && !badSig { // (with key 1's signature copied under key 0's id the "impostor" would hold the right material)
 		imp := vhEdKey(1, false)
 		imp.KeyID = vhEdIDs[0]
 		vAssert("C01.impostor-key-under-a-known-id-is-refused-after-a-genuine-verification", VerifyLayoutSignatures(md, map[string]Key{imp.KeyID: imp}) != nil)
